@@ -7,7 +7,7 @@ from ..consteval import ConstEval, NotConstant
 from ..src import own_nodes, norm
 from ..report import AnalysisError
 from .forwarding import branch_context
-from . import forwarding
+from . import forwarding, codelemmas
 
 
 def fmt_roles(call):
@@ -264,6 +264,11 @@ def run(chk):
     chk.rule('C07-U', 'no function accepts a context parameter and then ignores it')
     forwarding.dead_context_params(chk, c, 'C07-U', ('encoding_chars',))
 
+    # ---- H: lazily created elements look the delimiters up through the element they are created under
+    chk.rule('C07-H', 'the ancestor look-up of the encoding characters follows parent AND traversal_parent before it falls '
+                      'back to the process-wide defaults')
+    codelemmas.ancestor_lookup(chk, c, 'C07-H')
+
     # ---- P: the set a message reports is a function of its own MSH-1/MSH-2 only
     chk.rule('C07-P', 'the getter / setter / header parser of the encoding characters keep no state outside the message: they write no '
                       'module or class level object and read none that can change')
@@ -289,9 +294,12 @@ def run(chk):
     chk.ob('C07-I', 'encoding_chars is defined by Element and overridden by Message only', owners == ['core.Element', 'core.Message'],
            'defined in %s' % owners, elem.module.relpath, key='C07-I|owners')
     ge = ix.func('core.Element.encoding_chars')
-    ok = any(isinstance(n, ast.If) and norm(n.test) == 'self.parent is not None' and
-             any(isinstance(x, ast.Return) and norm(x.value) == 'self.parent.encoding_chars' for x in n.body)
-             for n in own_nodes(ge.node))
+    pal = {'self.parent', 'self._parent'} | {n.targets[0].id for n in own_nodes(ge.node) if isinstance(n, ast.Assign) and
+                                             len(n.targets) == 1 and isinstance(n.targets[0], ast.Name) and
+                                             norm(n.value) in ('self.parent', 'self._parent')}
+    ok = any(isinstance(x, ast.Return) and isinstance(x.value, ast.Attribute) and x.value.attr == 'encoding_chars' and
+             norm(x.value.value) in pal for x in own_nodes(ge.node))
+    # (that the defaults are reached only when there is no parent is rule C07-H)
     chk.ob('C07-I', 'an element with a parent uses the parent\'s encoding characters', ok, '', ge.loc, key='C07-I|inherit')
     stores = [fn.qualname for fn in te.funcs for n in own_nodes(fn.node) if isinstance(n, ast.Attribute) and
               isinstance(n.ctx, ast.Store) and n.attr in ('_encoding_chars',)]
